@@ -1,12 +1,11 @@
 /// Get the two nearest time points for time t in format (index, subindex).
 pub fn get_nearest_times_2(t: f64, factor: isize, points: &mut [(isize, isize); 2]) {
-    let mut index = t.floor() as isize;
-    let mut subindex = ((t - t.floor()) * (factor as f64)).floor() as isize;
-    // For t just below an integer, t - t.floor() may get rounded up to 1.0.
-    if subindex >= factor {
-        subindex -= factor;
-        index += 1;
-    }
+    // Take both parts from the floor of t * factor, which is also what the fractional offset
+    // between the points is calculated from. Separately rounded expressions can disagree
+    // about which point comes first when t * factor is very close to an integer.
+    let scaled = (t * factor as f64).floor() as isize;
+    let mut index = scaled.div_euclid(factor);
+    let mut subindex = scaled.rem_euclid(factor);
     points[0] = (index, subindex);
     subindex += 1;
     if subindex >= factor {
@@ -18,13 +17,12 @@ pub fn get_nearest_times_2(t: f64, factor: isize, points: &mut [(isize, isize); 
 
 /// Get the three nearest time points for time t in format (index, subindex).
 pub fn get_nearest_times_3(t: f64, factor: isize, points: &mut [(isize, isize); 3]) {
-    let mut start = t.floor() as isize;
-    let mut frac = ((t - t.floor()) * (factor as f64)).floor() as isize;
-    // For t just below an integer, t - t.floor() may get rounded up to 1.0.
-    if frac >= factor {
-        frac -= factor;
-        start += 1;
-    }
+    // Take both parts from the floor of t * factor, which is also what the fractional offset
+    // between the points is calculated from. Separately rounded expressions can disagree
+    // about which point comes first when t * factor is very close to an integer.
+    let scaled = (t * factor as f64).floor() as isize;
+    let start = scaled.div_euclid(factor);
+    let frac = scaled.rem_euclid(factor);
     let mut index;
     let mut subindex;
     for (idx, sub) in (0..3).enumerate() {
@@ -43,13 +41,12 @@ pub fn get_nearest_times_3(t: f64, factor: isize, points: &mut [(isize, isize); 
 
 /// Get the four nearest time points for time t in format (index, subindex).
 pub fn get_nearest_times_4(t: f64, factor: isize, points: &mut [(isize, isize); 4]) {
-    let mut start = t.floor() as isize;
-    let mut frac = ((t - t.floor()) * (factor as f64)).floor() as isize;
-    // For t just below an integer, t - t.floor() may get rounded up to 1.0.
-    if frac >= factor {
-        frac -= factor;
-        start += 1;
-    }
+    // Take both parts from the floor of t * factor, which is also what the fractional offset
+    // between the points is calculated from. Separately rounded expressions can disagree
+    // about which point comes first when t * factor is very close to an integer.
+    let scaled = (t * factor as f64).floor() as isize;
+    let start = scaled.div_euclid(factor);
+    let frac = scaled.rem_euclid(factor);
     let mut index;
     let mut subindex;
     for (idx, sub) in (-1..3).enumerate() {
